@@ -402,7 +402,11 @@ def run_physics(rec, seed, T, heat, fuel, mr, md, tar, tao, ramp, last=None, cf=
                     wanted += [(('start', j, b_), start[t - j] == 1, t, sr[0 if b_ == 'lo' else 1][j]) for b_ in ('lo', 'hi')]
             for j in range(k_sd):
                 t = T - 2 - j
-                if t >= (k_sr if tar == 0 else builtins_max(0, k_sr - tar)):
+                # (EAO adds both ramp lengths to the minimum runtime -- documented: ramps do not count towards it; a shutdown flagged in step T-1
+                #  must be reachable at all)
+                total_run = mr + k_sr + k_sd
+                reachable = (total_run <= T - 1) if tar == 0 else (builtins_max(0, total_run - tar) <= T - 1)
+                if reachable and t >= (k_sr if tar == 0 else builtins_max(0, k_sr - tar)):
                     wanted += [(('shutdown', j, b_), shut[T - 1] == 1, t, sdr[0 if b_ == 'lo' else 1][j]) for b_ in ('lo', 'hi')]
             for key, flag, t, bound in wanted:
                 if attain.get(key, ('', None))[0] == 'sat':
